@@ -48,7 +48,17 @@ impl VSink {
     { unimplemented!() }
 
     #[verifier::external_body]
-    pub fn write_all(&mut self, buf: &[u8]) -> (r: std::io::Result<()>)
+    pub fn write_i8(&mut self, v: i8) -> (r: std::io::Result<()>)
+        ensures r is Ok ==> final(self).bytes() == old(self).bytes() + seq![v as u8] && final(self).committed() == old(self).committed(),
+    { unimplemented!() }
+
+    #[verifier::external_body]
+    pub fn write_u64(&mut self, v: u64) -> (r: std::io::Result<()>)
+        ensures r is Ok ==> final(self).bytes() == old(self).bytes() + le32((v & 0xffff_ffff) as u32) + le32((v >> 32) as u32) && final(self).committed() == old(self).committed(),
+    { unimplemented!() }
+
+    #[verifier::external_body]
+    pub fn write_all(&mut self, buf: &Vec<u8>) -> (r: std::io::Result<()>)
         ensures r is Ok ==> final(self).bytes() == old(self).bytes() + buf@ && final(self).committed() == old(self).committed(),
     { unimplemented!() }
 
